@@ -83,3 +83,12 @@ package peer
 
 // sign-then-verify: both sides build the signed bytes with the same signBody term.
 //@ lemma sign-verify-roundtrip: forall k bytes, c string, t int, d bytes :: edVerify(pubOf(k), signBody(c, t, d), edSign(k, signBody(c, t, d)))
+
+// ---- C13: key derivation is total (no panic for any context/salt/output buffer) ----
+//@ func DeriveKey
+//@   modifies out
+//@   requires privKeyOK(privKey)
+
+//@ func DeriveEd25519Key
+//@   noframe
+//@   requires privKeyOK(privKey)
